@@ -97,6 +97,7 @@ def run(rep, tier):
     from props import suvfam
     import suvfam_scen
     fam = suvfam.Fam(rep, "C02", sub=".l1")
+    fam.also_tags = {"C09"}        # the policy clauses tagged for C09 are exactly what makes the fused statement equal to the value contract above
     suvfam.std_texts(rep)
     fam.add_kernels(fams=["iCommutator", "ACommutator"])
     fam.add_proxy(fams=["iCommutator", "ACommutator"])
